@@ -156,7 +156,8 @@ class C02System(BuilderSystem):
         s, m = st.g.state, st.machine
         return (s.is_tool_active, s.is_coolant_active, str(s.spin_mode), str(s.power_mode), str(s.coolant_mode),
                 s.tool_number, str(s.tool_swap_mode), rf(s.tool_power), str(s.halt_mode), str(s.distance_mode),
-                str(st.g.distance_mode), m.tool_on, m.coolant, m.tool_code, m.relative)
+                str(st.g.distance_mode), m.tool_on, m.coolant, m.tool_code, m.relative,
+                rf(s.feed_rate), rf(s.target_bed_temperature))
 
     def outcome(self, st):
         return (tuple(tuple(i["codes"]) for i in st.last_infos), type(st.last_exc).__name__ if st.last_exc else None)
@@ -170,10 +171,10 @@ RULE = ("BFS to closure over the interlock alphabet (tool_on/off, power_on/off, 
         "GCodeBuilder; every transition is checked by (a) a stream monitor over the emitted lines, (b) a tool/coolant reference "
         "automaton deciding exactly which calls must be rejected and with which exception type, (c) equality of the reported "
         "activity flags with the program; distinct = distinct canonical (GState modal fields + interpreter modal state); "
-        "position and temperatures are dropped from the canonical form (no interlock decision reads them)")
+        "position is dropped from the canonical form (no interlock decision reads it)")
 ASSUMPTIONS = [
     "tool power values from {0, 50, 1000}; tool numbers {1, 12}; no bounds configured (C03/C06 cover bounds)",
-    "canonical state drops position, feed rate and temperatures: interlock decisions do not read them",
+    "canonical state drops the position only (relative moves would make the space infinite; no interlock decision reads it)",
 ]
 
 
